@@ -401,6 +401,17 @@ def placement(ctx, facts, cfg):
             length = c05.lin(('bin', 'Sub', en, st))
             kind = 'orig' if length == c05.lin(('sym', 'O')) else ('rec' if length == c05.lin(('sym', 'R')) else None)
             if kind is None:
+                # one loop over a stretch of absolute positions that contains a configured region whole (bitmap and buffers
+                # are indexed by the position itself, so placement agrees by construction inside it)
+                inside = []
+                for kd, base, cnt in (('orig', bases[0], ('sym', 'O')), ('rec', bases[1], ('sym', 'R'))):
+                    if _nonneg(('bin', 'Sub', sym(base), st)) and _nonneg(('bin', 'Sub', en, ('bin', 'Add', sym(base), cnt))):
+                        inside.append((kd, base))
+                if inside:
+                    for kd, base in inside:
+                        regions[kd].append((sym(base), e['node'].get('line')))
+                    continue
+            if kind is None:
                 ctx.violation(R, 'odd-region:%s' % core.short(adt), '%s loops over received[%s..%s], which is neither original_count nor recovery_count positions long'
                               % (p, hshow(st), hshow(en)), site=e['node'].get('line'), fn=p, cfg=cfg)
                 continue
@@ -417,7 +428,8 @@ def placement(ctx, facts, cfg):
                     ctx.violation(R, 'misplaced-%s:%s' % (kind, core.short(adt)),
                                   '%s treats positions from %s on as %s shards, but reset configured their base position as %s (where add_* stores them and the accessor reads them)'
                                   % (p, hshow(st), 'original' if kind == 'orig' else 'recovery', core.show(base)), site=line, fn=p, cfg=cfg)
-    ctx.floor(R, 10, n, 'bitmap-indexed regions in the decoders', cfg=cfg)
+    # (every decoder needs both kinds of region: 'no-orig-region' / 'no-rec-region' above; how many loops visit them is free)
+    ctx.floor(R, 4, n, 'bitmap-indexed regions in the decoders', cfg=cfg)
 
 
 def rn(c, ren):
